@@ -417,4 +417,12 @@ Fairness ==
   /\ WF_vars(Schedule)
   /\ \A t \in Thread : WF_vars(\E r \in {"ok", "ErrClosed", "ErrNoPeers", "ErrSendTimeout"} : SendDone(t, r))
 FairSpec == Spec /\ Fairness
+\* a Send that is waiting returns, or the socket has no usable peer left (the peers take what they are sent: XmitEnd(p, TRUE)
+\* is fair; connections coming, going and failing, deadlines and Close are the environment's and are not).  A PUSH
+\* connection whose transport send failed is not ready again: it is on its way out (the core removes it).
+NoUsablePeer == \A p \in pipes : pclosed[p] \/ (SendKind = "sched" /\ txHold[p] = NULL /\ \A i \in 1..Len(readyQ) : readyQ[i] # p)
+SendCompletes == \A t \in Thread : (call[t] # NULL /\ call[t].op = "send") ~> (call[t] = NULL \/ NoUsablePeer)
+\* what Send accepted is handed to a connection, or the socket has no usable peer / is closed
+AcceptedHandedOn == \A i \in 1..3 :
+   (Len(accepted) >= i /\ SendKind \in {"shared", "sched"}) ~> (sclosed \/ NoUsablePeer \/ (Len(accepted) >= i /\ \E j \in 1..Len(handed) : handed[j][1] = accepted[i].tag))
 =============================================================================
